@@ -160,9 +160,10 @@ Section Check.
     | _ => CBool
     end.
 
+  (* entityHasTags: SOME member type declares tags *)
   Definition entity_has_tags (l : list str) : bool :=
-    forallb (fun et => match entity_of et with Some e => match te_tags e with Some _ => true | None => false end | None => false end) l.
-  (* entityTagType: Some None = incompatible tag types (error) *)
+    existsb (fun et => match entity_of et with Some e => match te_tags e with Some _ => true | None => false end | None => false end) l.
+  (* entityTagType: the lub of the tag types of the member types that declare tags; None = incompatible tag types (error) *)
   Definition entity_tag_type (l : list str) : option cty :=
     (fix go (l : list str) (acc : cty) : option cty :=
        match l with
@@ -170,10 +171,10 @@ Section Check.
        | et :: r =>
            match entity_of et with
            | Some e => match te_tags e with
-                       | None => Some CNever
+                       | None => go r acc              (* a member type without tags: skipped *)
                        | Some t => match lub' acc t with Some x => go r x | None => None end
                        end
-           | None => Some CNever
+           | None => go r acc
            end
        end) l CNever.
 
